@@ -989,10 +989,28 @@ func checkSubscriptionManager(r *Reporter, p *Prog) {
 				}
 			}
 		}
+		// one call changes one subscription: the global count moves by exactly one (or starts at 1),
+		// never by the client's own per-topic count or any other amount
+		for _, gp := range lf.Find(func(n ast.Node) bool { k, op := mapOp(n); return k == "global" && op == "Set" }) {
+			inspectNoLit(lf.nodeAt(gp), func(n ast.Node) bool {
+				cl, ok := n.(*ast.CallExpr)
+				if k, op := mapOp(n); !ok || k != "global" || op != "Set" || len(cl.Args) != 2 {
+					return true
+				}
+				vk := lf.KeyAt(cl.Args[1], gp)
+				step := map[bool]string{true: "+1)", false: "-1)"}[row.m == "Subscribe"]
+				okAmount := (row.m == "Subscribe" && vk == "1") ||
+					(strings.HasPrefix(vk, "(") && strings.HasSuffix(vk, step) && strings.Contains(vk, ".topics.Get(") && strings.Count(vk, ".Get(") == 1)
+				if !okAmount && bad == "" {
+					bad = fmt.Sprintf("%s: the global topic count is set to %s: one %s must move it by exactly one from its current value (with another amount the global count is no longer the sum of the clients' subscriptions, and a topic is removed while clients still hold it)", lf.PosOf(gp), vk, row.m)
+				}
+				return true
+			})
+		}
 		if bad != "" {
 			r.Fail("pair/client-global-count", key, p.posStr(lit.Pos()), bad, wit...)
 		} else {
-			r.Pass("pair/client-global-count", key, p.posStr(lit.Pos()), fmt.Sprintf("%d per-client change(s), each matched by a global change (or undone) before the observer / the end of the section", len(clientChanges)))
+			r.Pass("pair/client-global-count", key, p.posStr(lit.Pos()), fmt.Sprintf("%d per-client change(s), each matched by a global change of exactly one (or undone) before the observer / the end of the section", len(clientChanges)))
 		}
 	}
 }
